@@ -8,13 +8,19 @@ HERE = os.path.dirname(os.path.dirname(os.path.abspath(__file__)))
 TECH = "bounded symbolic (concolic) execution of the unmodified pyttb source on symbolic reals/ints; z3 decides every branch side and every goal; counterexamples replayed on the unpatched code"
 
 CHECKS = {
-    "C01": ("conversions preserve the tensor: for every configuration in the bounds (shapes <= 8 cells / N <= 4, nnz <= 4 in every stored order, R <= 2, every ordered mode split) z3 proves den(result) == den(source) cell by cell for all real values and all sparsity patterns", "5 C01"),
+    "C01": ("conversions preserve the tensor: for every configuration in the bounds (shapes <= 8 cells / N <= 4(5), nnz <= 4 in every stored order, R <= 2, every ordered mode split) z3 proves den(result) == den(source) cell by cell for all real values and all sparsity patterns", "5 C01"),
     "C02": ("multilinear products equal their defining index sums for all operand values (dense / sparse / Kruskal / Tucker / sum holders, every subset of modes, both designations, transpose flag, both sides of the sparse/dense result switch)", "5 C02"),
-    "C03": ("sparse element-wise + - * /, logic and comparisons equal the dense semantics (IEEE corners concrete per path) for all joint sparsity patterns / signs / ties of the bounded shapes", "5 C03"),
-    "C04": ("one inductive step (arbitrary pre-state of the bounded shape, one read/write with a solver-enumerated key and symbolic right-hand side) plus length-2 histories: dense and sparse post-states equal the F-ordered growable-array model, invariant re-proved", "5 C04"),
+    "C03": ("sparse element-wise + - * /, logic and comparisons equal the dense semantics (IEEE corners concrete per path) for all joint sparsity patterns / signs / ties of the bounded shapes and for operands stored in opposite orders", "5 C03"),
+    "C04": ("one inductive step (arbitrary pre-state of the bounded shape, one read/write with a solver-enumerated key and symbolic right-hand side) plus length-2 histories incl. growth-then-overwrite: dense and sparse post-states equal the F-ordered growable-array model, invariant re-proved", "5 C04"),
+    "C05": ("catalogue of ~150 public operations: on every path the operands are proved cell-for-cell unchanged and the result shares no memory with them (memory fact + in-place write observation); documented in-place methods change only the receiver", "5 C05"),
     "C06": ("well-formedness monitor on every sparse result + every stored order of the operands compared with one order-free reference", "5 C06"),
     "C07": ("permute / reshape / squeeze equal the index formulas for all N! orders and all factorizations, on dense, sparse, Kruskal and Tucker holders; inverse round trips", "5 C07"),
+    "C08": ("Kruskal re-parameterisations: den(after) == den(before) for all weights / factors (zero columns, negative weights by forks) and the normal form proved through sqrt / N-th-root definitions", "5 C08"),
+    "C12": ("loss vs gradient through dual numbers over the real handles for all data / model / parameter values; evaluate() and estimate() against an uninterpreted loss pair (so for every loss): objective, exact partial derivatives, all-modes vs one-mode MTTKRP", "5 C12"),
+    "C15": ("symmetrize == average over within-group permutations, result passes the test, idempotence, symmetric input kept; issymmetric exact on every path (invariance proved / refuted under the path condition); both versions; Kruskal variant", "5 C15"),
     "C17": ("index arithmetic with symbolic integer subscripts (LIA), mode-selection preprocessing, row-set helpers and Khatri-Rao against their definitions", "5 C17"),
+    "C19": ("windows of solver-enumerated integer arguments around the valid range + catalogues of inconsistent components: every ill-formed instance raises and leaves the receiver unchanged, every well-formed one is answered", "5 C19"),
+    "C20": ("generators: exact shape and entries with symbolic providers; RNG as a symbolic stub (every draw outcome of the retry loop explored through equality forks); aggregator with arbitrary multiplicities and reducers", "5 C20"),
 }
 
 NA = {}
